@@ -413,6 +413,17 @@ func build(r *R) error {
 			res = barriers.HandledWithMessagef(k0, in(r, 0), fmtArgs(r)...)
 			r.S = []string{string(redact.Sprintf(in(r, 0), fmtArgs(r)...))}
 		}
+	case "handledindomain":
+		if nin(r, 0) == 0 {
+			res = errors.HandledInDomain(k0, errors.Domain(in(r, 0)))
+			r.S = []string{in(r, 0), ""}
+			if k0 != nil {
+				r.S[1] = string(redact.Sprint(k0))
+			}
+		} else {
+			res = errors.HandledInDomainWithMessage(k0, errors.Domain(in(r, 0)), in(r, 1))
+			r.S = []string{in(r, 0), string(redact.Sprint(in(r, 1)))}
+		}
 	case "handleasassertion":
 		res = errors.HandleAsAssertionFailure(k0)
 		if k0 != nil {
